@@ -91,7 +91,47 @@ func (fc *FnCtx) lookupTypeNameIn(name string, pkgPath string) types.Type {
 		name = name[1:]
 	}
 	var t types.Type
-	if strings.HasPrefix(name, "[]") {
+	if strings.HasPrefix(name, "$dom[") || strings.HasPrefix(name, "$val[") || strings.HasPrefix(name, "map[") {
+		key := pkgPath + "|" + name
+		if pt, ok := pseudoTypes[key]; ok {
+			t = pt
+		} else {
+			open := strings.Index(name, "[")
+			depth, close := 0, -1
+			for i := open; i < len(name); i++ {
+				if name[i] == '[' {
+					depth++
+				} else if name[i] == ']' {
+					depth--
+					if depth == 0 {
+						close = i
+						break
+					}
+				}
+			}
+			if close < 0 {
+				return nil
+			}
+			kt := fc.lookupTypeNameIn(name[open+1:close], pkgPath)
+			if kt == nil {
+				return nil
+			}
+			var vt types.Type = types.Typ[types.Bool]
+			if !strings.HasPrefix(name, "$dom[") {
+				vt = fc.lookupTypeNameIn(name[close+1:], pkgPath)
+				if vt == nil {
+					return nil
+				}
+			}
+			mt := types.NewMap(kt, vt)
+			if strings.HasPrefix(name, "map[") {
+				t = mt
+			} else {
+				t = types.NewNamed(types.NewTypeName(0, nil, name[:4], nil), mt, nil)
+			}
+			pseudoTypes[key] = t
+		}
+	} else if strings.HasPrefix(name, "[]") {
 		el := fc.lookupTypeNameIn(name[2:], pkgPath)
 		if el == nil {
 			return nil
@@ -143,6 +183,44 @@ func (fc *FnCtx) lookupTypeNameIn(name string, pkgPath string) types.Type {
 		t = types.NewPointer(t)
 	}
 	return t
+}
+
+var pseudoTypes = map[string]types.Type{}
+
+func pseudoKind(t types.Type) string {
+	if n, ok := t.(*types.Named); ok && n.Obj().Pkg() == nil && (n.Obj().Name() == "$dom" || n.Obj().Name() == "$val") {
+		return n.Obj().Name()
+	}
+	return ""
+}
+
+func (fc *FnCtx) domType(mt *types.Map) types.Type {
+	key := "|$dom|" + types.TypeString(mt.Key(), nil)
+	if t, ok := pseudoTypes[key]; ok {
+		return t
+	}
+	t := types.NewNamed(types.NewTypeName(0, nil, "$dom", nil), types.NewMap(mt.Key(), types.Typ[types.Bool]), nil)
+	pseudoTypes[key] = t
+	return t
+}
+
+func (fc *FnCtx) valType(mt *types.Map) types.Type {
+	key := "|$val|" + types.TypeString(mt, nil)
+	if t, ok := pseudoTypes[key]; ok {
+		return t
+	}
+	t := types.NewNamed(types.NewTypeName(0, nil, "$val", nil), mt, nil)
+	pseudoTypes[key] = t
+	return t
+}
+
+// enumFuncs declares the canonical enumeration of a map domain.
+func (e *Engine) enumFuncs(ks Sort) (ek, eidx string) {
+	ek = "ek_" + mangle(string(ks))
+	eidx = "eidx_" + mangle(string(ks))
+	e.GDecl(ek, fmt.Sprintf("(declare-fun %s (%s Int) %s)", ek, ArraySort(ks, SBool), ks))
+	e.GDecl(eidx, fmt.Sprintf("(declare-fun %s (%s %s) Int)", eidx, ArraySort(ks, SBool), ks))
+	return
 }
 
 // localAlloc finds the memory cell of a local variable visible at pos.
@@ -418,6 +496,13 @@ func (sc *Scope) tr(e Expr) (Term, types.Type) {
 	case *EIndex:
 		xt, ty := sc.tr(x.X)
 		it, ity := sc.tr(x.I)
+		if pk := pseudoKind(ty); pk != "" {
+			mt := ty.Underlying().(*types.Map)
+			if pk == "$dom" {
+				return Select(xt, it), tBool
+			}
+			return Select(xt, it), mt.Elem()
+		}
 		switch tt := ty.Underlying().(type) {
 		case *types.Slice:
 			mem := fc.lookupIn(sc.curEnv(), fc.memVar(tt.Elem()))
@@ -774,6 +859,37 @@ func (sc *Scope) trCall(x *ECall) (Term, types.Type) {
 		}
 		dom, _, _ := fc.mapVars(mt)
 		return T(SBool, "(and (not (= %s 0)) %s)", m.S, Select(Select(fc.lookupIn(sc.curEnv(), dom), m), k).S), tBool
+	case "dom", "vals", "mapkey", "mapat":
+		m, mty := arg(0)
+		mt, ok := mty.Underlying().(*types.Map)
+		if !ok || pseudoKind(mty) != "" {
+			sc.fail("%s: not a map", name)
+		}
+		dv, vv, _ := fc.mapVars(mt)
+		d := Select(fc.lookupIn(sc.curEnv(), dv), m)
+		v := Select(fc.lookupIn(sc.curEnv(), vv), m)
+		switch name {
+		case "dom":
+			return d, fc.domType(mt)
+		case "vals":
+			return v, fc.valType(mt)
+		}
+		j, _ := arg(1)
+		ek, _ := fc.eng.enumFuncs(u.SortOf(mt.Key()))
+		k := App(u.SortOf(mt.Key()), ek, d, j)
+		if name == "mapkey" {
+			return k, mt.Key()
+		}
+		return Select(v, k), mt.Elem()
+	case "ekey":
+		d, dty := arg(0)
+		j, _ := arg(1)
+		if pseudoKind(dty) != "$dom" {
+			sc.fail("ekey: first argument must be a $dom value")
+		}
+		kt := dty.Underlying().(*types.Map).Key()
+		ek, _ := fc.eng.enumFuncs(u.SortOf(kt))
+		return App(u.SortOf(kt), ek, d, j), kt
 	case "abs":
 		t, ty := arg(0)
 		return T(t.Sort, "(ite (>= %[1]s 0) %[1]s (- %[1]s))", t.S), ty
@@ -893,7 +1009,20 @@ func (sc *Scope) trCall(x *ECall) (Term, types.Type) {
 		}
 	}
 	if sf == nil {
+		if t, ty, ok := sc.pureCall(name, x); ok {
+			return t, ty
+		}
 		sc.fail("unknown function %s", name)
+	}
+	if sf.Macro {
+		if sf.Body == nil || len(x.Args) != len(sf.Params) {
+			sc.fail("macro %s: needs a body and %d arguments", sf.Name, len(sf.Params))
+		}
+		sub := map[string]Expr{}
+		for i, q := range sf.Params {
+			sub[q.Name] = x.Args[i]
+		}
+		return sc.tr(substExpr(sf.Body, sub))
 	}
 	smtName, rty := fc.eng.declareSpecFunc(fc, sf)
 	var as []Term
@@ -979,4 +1108,106 @@ func (e *Engine) declareSpecFunc(fc *FnCtx, sf *SpecFunc) (string, types.Type) {
 	}
 	e.GDecl(smtName, fmt.Sprintf("(define-fun %s (%s) %s %s)", smtName, strings.Join(ps, " "), rs, body.S))
 	return smtName, rty
+}
+
+// pureUF declares the uninterpreted function standing for the i-th result of
+// a Go function whose contract is flagged "pure".
+func (e *Engine) pureUF(fn *ssa.Function, i int) (string, Sort) {
+	name := fmt.Sprintf("pf_%s_%d", mangle(shortName(fn)), i)
+	var sorts []string
+	for _, p := range fn.Params {
+		sorts = append(sorts, string(e.U.SortOf(p.Type())))
+	}
+	rs := e.U.SortOf(fn.Signature.Results().At(i).Type())
+	e.GDecl(name, fmt.Sprintf("(declare-fun %s (%s) %s)", name, strings.Join(sorts, " "), rs))
+	return name, rs
+}
+
+// pureCall: a Go function with a "pure" contract used inside a contract.
+func (sc *Scope) pureCall(name string, x *ECall) (Term, types.Type, bool) {
+	fc := sc.fc
+	if sc.pkg == nil || strings.Contains(name, ".") {
+		return Term{}, nil, false
+	}
+	obj, ok := sc.pkg.Scope().Lookup(name).(*types.Func)
+	if !ok {
+		return Term{}, nil, false
+	}
+	fn := fc.eng.Prog.FuncValue(obj)
+	if fn == nil {
+		return Term{}, nil, false
+	}
+	ct := fc.eng.ContractFor(fn)
+	if ct == nil || !ct.Flags["pure"] {
+		sc.fail("%s is used in a contract but its own contract is not flagged pure", name)
+	}
+	if len(x.Args) != len(fn.Params) || fn.Signature.Results().Len() != 1 {
+		sc.fail("%s: wrong number of arguments or results for a pure call", name)
+	}
+	var as []Term
+	for _, a := range x.Args {
+		t, _ := sc.tr(a)
+		as = append(as, t)
+	}
+	uf, rs := fc.eng.pureUF(fn, 0)
+	return App(rs, uf, as...), fn.Signature.Results().At(0).Type(), true
+}
+
+// substExpr replaces identifiers by expressions (macro expansion).
+func substExpr(e Expr, sub map[string]Expr) Expr {
+	switch x := e.(type) {
+	case *EIdent:
+		if r, ok := sub[x.Name]; ok {
+			return r
+		}
+		return x
+	case *EUnary:
+		return &EUnary{x.Op, substExpr(x.X, sub)}
+	case *EBinary:
+		return &EBinary{x.Op, substExpr(x.X, sub), substExpr(x.Y, sub)}
+	case *ESel:
+		return &ESel{substExpr(x.X, sub), x.Name}
+	case *EIndex:
+		return &EIndex{substExpr(x.X, sub), substExpr(x.I, sub)}
+	case *ESlice:
+		n := &ESlice{X: substExpr(x.X, sub)}
+		if x.Lo != nil {
+			n.Lo = substExpr(x.Lo, sub)
+		}
+		if x.Hi != nil {
+			n.Hi = substExpr(x.Hi, sub)
+		}
+		return n
+	case *ECall:
+		n := &ECall{Fun: x.Fun}
+		if _, isSel := x.Fun.(*ESel); isSel {
+			n.Fun = substExpr(x.Fun, sub)
+		}
+		for _, a := range x.Args {
+			n.Args = append(n.Args, substExpr(a, sub))
+		}
+		return n
+	case *EOld:
+		return &EOld{substExpr(x.X, sub)}
+	case *ECond:
+		return &ECond{substExpr(x.C, sub), substExpr(x.A, sub), substExpr(x.B, sub)}
+	case *EQuant:
+		inner := map[string]Expr{}
+		for k, v := range sub {
+			inner[k] = v
+		}
+		for _, v := range x.Vars {
+			delete(inner, v.Name)
+		}
+		n := &EQuant{Forall: x.Forall, Vars: x.Vars, Body: substExpr(x.Body, inner)}
+		for _, p := range x.Pats {
+			var np []Expr
+			for _, pe := range p {
+				np = append(np, substExpr(pe, inner))
+			}
+			n.Pats = append(n.Pats, np)
+		}
+		return n
+	}
+	return e
 }
